@@ -140,6 +140,10 @@ def run_connect(case, shared_home=None):
                 hk.add('[%s]:%s' % (host, port), 'ssh-rsa', K['server'])
             elif case['known'] == 'd':
                 hk.add(host, 'ssh-rsa', K['other'])
+            elif case['known'] == 'k':
+                # the key is filed under a THIRD name only (what a HostKeyAlias option would point at)
+                hk.add('lab-gateway', 'ssh-rsa', K['server'])
+                hk.add('[lab-gateway]:%s' % port, 'ssh-rsa', K['server'])
             elif case['known'] == 'w':
                 # an OpenSSH pattern line that does NOT apply to this host (negated), and one for another domain
                 hk.add('*.%s,!%s' % (host.split('.', 1)[-1], host), 'ssh-rsa', K['server'])
@@ -167,7 +171,7 @@ def run_connect(case, shared_home=None):
         allow = {fp_of(presented)} if case['cb'] else {fp_of(k) for k in ('server', 'other', 'third') if k != presented}
 
         def cb(h, fp):
-            verdict = h == host and str(fp).lower() in allow
+            verdict = h == (None if case.get('nohost') else host) and str(fp).lower() in allow
             log.append('callback:%d' % (1 if verdict else 0))
             return verdict
 
@@ -182,7 +186,7 @@ def run_connect(case, shared_home=None):
         a = socket.create_connection(lst.getsockname())
         b, _ = lst.accept()
         lst.close()
-        kw = dict(host=host, port=port, sock=a, hostkey_verify=case['verify'], allow_agent=False, look_for_keys=False, username='u',
+        kw = dict(host=(None if case.get('nohost') else host), port=port, sock=a, hostkey_verify=case['verify'], allow_agent=False, look_for_keys=False, username='u',
                   device_params=dict(case.get('device_params') or {}, name=case['profile']))
         if case['profile'] in ('default', 'junos', 'nexus') and case['cb'] is not None:
             kw['unknown_host_cb'] = cb          # cb None: the caller passes no callback at all (the library's default refuses)
